@@ -228,11 +228,17 @@ impl TcpNameserver {
     }
 
     async fn send_tcp_query(&mut self, msg: TcpNameserverMessage) -> Result<(), Error> {
-        assert!(
-            self.qid2reply
-                .insert(msg.out_query.qid, msg.out_reply)
-                .is_none()
-        ); // TODO: Collisions!
+        if self.qid2reply.contains_key(&msg.out_query.qid) {
+            /* Another query with the same (randomly chosen) id is still in flight on this
+             * connection.  Fail this query rather than taking down the task that every other
+             * query to this nameserver depends on, or handing one query the other's reply.
+             */
+            let _ = msg.out_reply.send(Err(Error::Internal(
+                "Query id already in flight on this TCP connection".into(),
+            )));
+            return Ok(());
+        }
+        self.qid2reply.insert(msg.out_query.qid, msg.out_reply);
         if let Some(ref mut tcp_sock) = self.tcp {
             use tokio::io::AsyncWriteExt as _;
             let bytes = msg.out_query.serialise();
